@@ -885,6 +885,21 @@ type BGP4MPMessage struct {
 	isAddPath         bool
 }
 
+// marshallingOptions returns the options the embedded BGP message is encoded
+// with. The *_ADDPATH subtypes (RFC 8050) hold a message whose NLRI carry path
+// identifiers; the record does not tell for which families ADD-PATH was
+// negotiated, so every family is taken to be ADD-PATH encoded.
+func (m *BGP4MPMessage) marshallingOptions() []*bgp.MarshallingOption {
+	if !m.isAddPath {
+		return nil
+	}
+	addPath := make(map[bgp.Family]bgp.BGPAddPathMode, len(bgp.AddressFamilyNameMap))
+	for f := range bgp.AddressFamilyNameMap {
+		addPath[f] = bgp.BGP_ADD_PATH_BOTH
+	}
+	return []*bgp.MarshallingOption{{AddPath: addPath}}
+}
+
 func parseBGP4MPMessage(hdr *BGP4MPHeader, isLocal bool, isAddPath bool, data []byte) (*BGP4MPMessage, error) {
 	m := &BGP4MPMessage{
 		BGP4MPHeader: hdr,
@@ -900,7 +915,7 @@ func parseBGP4MPMessage(hdr *BGP4MPHeader, isLocal bool, isAddPath bool, data []
 		return nil, fmt.Errorf("not all BGP4MPMessageAS4 bytes available")
 	}
 
-	msg, err := bgp.ParseBGPMessage(rest)
+	msg, err := bgp.ParseBGPMessage(rest, m.marshallingOptions()...)
 	if err != nil {
 		return nil, err
 	}
@@ -916,7 +931,7 @@ func (m *BGP4MPMessage) Serialize() ([]byte, error) {
 	if m.BGPMessagePayload != nil {
 		return append(buf, m.BGPMessagePayload...), nil
 	}
-	bbuf, err := m.BGPMessage.Serialize()
+	bbuf, err := m.BGPMessage.Serialize(m.marshallingOptions()...)
 	if err != nil {
 		return nil, err
 	}
